@@ -71,6 +71,9 @@ var mateInOne = []string{
 	"r3k3/3ppp2/8/8/8/7K/8/2q3R1 w q - 0 1",
 	"1r3Q2/8/k7/8/8/8/3PPP2/4K2R b K - 0 1",
 	"2Q3r1/8/7k/8/8/8/3PPP2/R3K3 b Q - 0 1",
+	// the mating move is castling (queen side, with the square only the rook crosses attacked)
+	"8/8/8/4Q3/8/nP1k4/8/R3K3 w Q - 0 1",
+	"r3k3/8/Np1K4/8/4q3/8/8/8 b q - 0 1",
 }
 
 var terminal = []string{
@@ -95,6 +98,16 @@ func searchGen(r *common.Rng, n int, shard int, out *common.Out) {
 			out.Line("%s ;; %s", spec("startpos", "e2e4 e7e5", 2, -1), spec(f, "", 2, 5))
 		}
 		out.Line("%s", spec("startpos", "", 3, -1))
+		// en passant at the root: the capture of the checking pawn is the ONLY legal move (both colours); the capture that would
+		// expose the king along the rank is illegal (both colours)
+		for _, c := range [][2]string{
+			{"6k1/3p4/4p3/4P3/3PKP2/r7/8/8 b - - 0 40", "d7d5"}, {"8/8/R7/3pkp2/4p3/4P3/3P4/6K1 w - - 0 40", "d2d4"},
+			{"8/1p4k1/6p1/K1P4r/8/8/5PR1/8 b - - 0 40", "b7b5"}, {"8/8/8/8/R4p1k/8/6P1/1K6 w - - 0 40", "g2g4"},
+		} {
+			out.Line("%s", spec(c[0], c[1], 1, -1))
+			out.Line("%s", spec(c[0], c[1], 2, 0))
+			out.Line("%s", spec(c[0], c[1], 3, -1))
+		}
 		out.Line("%s ;; %s ;; %s", spec("startpos", "", 2, -1), spec("startpos", "e2e4", 2, -1), spec("startpos", "e2e4 e7e5", 3, 40))
 		out.Line("%s", spec("startpos", "g1f3 g8f6 f3g1 f6g8 g1f3 g8f6 f3g1", 3, -1))
 	}
